@@ -258,7 +258,8 @@ def load_skeleton(fn):
     out.append("Definition load_arrays (check safety : Z) : bool := %s.\n" % c.tr(arr_if.test))
     # percentage block: if pf > 0: (if pf == 100: raise / elif not tolerant: raise / else: warn) else: print
     pf = [s for s in rest if isinstance(s, ast.Assign) and ast.unparse(s.targets[0]) == "percentage_failed"]
-    if len(pf) != 1 or ast.unparse(pf[0].value) != "(1 - len(structures) / len(dirlist)) * 100":
+    # (an empty collection has no member that could fail: the guard makes the percentage 0 there, which is what load_final says for ntot = 0)
+    if len(pf) != 1 or ast.unparse(pf[0].value) != "(1 - len(structures) / len(dirlist)) * 100 if dirlist else 0.0":
         fail(fn, "percentage_failed formula")
     inner = pct.body
     if not (len(inner) == 1 and isinstance(inner[0], ast.If) and ast.unparse(inner[0].test) == "percentage_failed == 100"
